@@ -39,6 +39,20 @@ pub open spec fn own_type(m: AisMessage) -> int {
     return '\n'.join(out)
 
 
+UNARMOR_SPEC = '''
+/// C03 (part proved by V for every length): exactly the strings over the armoring alphabet are accepted,
+/// and the result has ceil(6n/8) bytes
+pub open spec fn all_armor(data: Seq<u8>) -> bool { forall|i: int| 0 <= i < data.len() ==> sixbit(#[trigger] data[i]) is Some }
+pub open spec fn unarmor_ok(data: Seq<u8>, fill: int, out: Seq<u8>) -> bool {
+    all_armor(data) && out.len() == (6 * data.len() + 7) / 8
+}
+pub open spec fn unarmor_C03(data: Seq<u8>, fill: int, r: Result<AisRawData>) -> bool {
+    &&& (r is Ok <==> all_armor(data))
+    &&& (r is Ok ==> unarmor_ok(data, fill, r->Ok_0@))
+}
+'''
+
+
 def dispatch_ensures():
     ens = ['dispatch_C09(unarmored@, r)']
     for (nums, variant, mod, struct, prefix, tags) in c_msgs.type_table():
@@ -49,8 +63,18 @@ def dispatch_ensures():
 
 def apply(fc):
     fc.add_prologue(PROLOGUE)
-    fc.add_epilogue(dispatch_spec())
+    fc.add_epilogue(dispatch_spec() + UNARMOR_SPEC + '\npub open spec fn dispatch_all(o: Seq<u8>, r: Result<AisMessage>) -> bool {\n    ' + '\n    && '.join(dispatch_ensures()).replace('unarmored@', 'o') + '\n}\n')
     fc.contract('parse', requires=['small(unarmored@.len() as int)'], ensures=dispatch_ensures())
     fc.contract('parse', within='trait AisMessageType', requires=['small(data@.len() as int)'])
     fc.contract('push_unwrap', ensures=['final(list)@ == old(list)@.push(item)'], tags=['C14'])
-    fc.contract('unarmor', external_body=True)
+    fc.contract('unarmor', requires=['small(data@.len() as int)', 'fill_bits <= 5'], ensures=['unarmor_C03(data@, fill_bits as int, r)'], tags=['C03'])
+    fc.replace_in('unarmor', 'for byte in data {', '''for byte in it: data
+        invariant
+            offset == 6 * it.index@,
+            output.len() == byte_count,
+            bit_count == data.len() * 6,
+            byte_count == (bit_count / 8) + if bit_count % 8 != 0 { 1int } else { 0int },
+            it.index@ <= data.len(),
+            small(data@.len() as int),
+            forall|j: int| 0 <= j < it.index@ ==> sixbit(#[trigger] data@[j]) is Some,
+    {''', kind='loop')
